@@ -30,10 +30,15 @@ def classify(ctx, seg, idx, reason):
         what = "zips/%s" % ev.get("res")
     else:
         what = "%s/%s" % (ev.get("op"), ev.get("res"))
-    last_rec = max([i for i, x in enumerate(seg[:idx]) if x.get("ev") == "recover"] or [0])
+    # the second restart ("side") only checks that a rebuild changes nothing: it does not start a new phase for what follows
+    recs = [i for i, x in enumerate(seg[:idx]) if x.get("ev") == "recover"]
+    in_side = bool(recs) and seg[recs[-1]].get("side") and not any(e.get("ev") == "op" and e.get("op") in ("receive", "remove") for e in seg[recs[-1]:idx])
+    last_rec = max([i for i in recs if not seg[i].get("side")] or [0])
     muts = [e.get("op") for e in seg[last_rec + 1:idx] if e.get("ev") == "op" and e.get("op") in ("receive", "remove") and last_rec > 0 or
             (last_rec == 0 and e.get("ev") == "op" and e.get("op") == "remove")]
     phase = "after-" + ("+".join(dict.fromkeys(muts)) if muts else "restart" if last_rec else "pack")
+    if in_side or (ev.get("ev") == "recover" and ev.get("side")):
+        phase = "after-second-restart:" + str(seg[recs[-1]].get("what") if recs else ev.get("what"))
     sig = "C04/%s/%s/mode=%s/%s/%s" % (reset.get("scn"), cr.get("class"), mode, phase, what)
     return sig, ("%s: %s" % (reason, json.dumps({k: v for k, v in ev.items() if k not in ("seq", "needs")})[:300])), \
         {"property": "C04", "segment": [e for e in seg[:idx + 1] if e.get("op") not in ("fetch",)][-60:], "reason": reason}
